@@ -894,6 +894,11 @@ def run(prop, tier, replay=None):
         raise MachineryError('liveness evaluated between two lock sections (a racing registration is overwritten): not rejected by the model checker: %s' % ro.error)
     wit['prune_outside_lock_model'] = ro.error
     ev.cov['witnesses'] = wit
+    # unbounded history length: Apalache discharges the inductive invariant of RegistryInd.tla (same critical sections, registry as a set,
+    # 5 worker objects x 3 caller threads, any number of restarts / calls / autoclose blocks) and rejects the two pre-fix algorithms
+    ev.cov['apalache_inductive_invariant'] = tlc.apalache_inductive(
+        'RegistryInd', 'Mutex, LiveReg, Exact (C19_Exact), Bounded (C19_Bounded), Autoclose (C19_Autoclose) for histories of ANY length',
+        rejected_nexts=('NextBadRestart', 'NextBadPrune'))
     ev.cov['phase_s'] = {'model_checking': T.s()}
 
     # ---- spec -> code
